@@ -14,7 +14,9 @@ RULE = ("cases = generated project trees in which EVERY Python file writes a sen
         "executing pid) when executed; file names drawn adversarially: conftest.py, setup.py, sitecustomize.py, "
         "usercustomize.py, manage.py, a module and a package named after every entry of settings.auto_import_modules "
         "(gi), *.pth files with an import line, a sourceless .pyc compiled from a side-effecting source, __main__.py, "
-        "buildout.cfg + bin/ scripts, test_*.py with fixtures; x project options {default, explicit sys_path containing "
+        "buildout.cfg + bin/ scripts, test_*.py with fixtures, a zip archive with a non-UTF-8 member put on sys.path by the buffer, a file "
+        "named like the Python twin of a C accelerator module (datetime/decimal/sqlite3/zoneinfo) queried through the accelerator's "
+        "classes; x project options {default, explicit sys_path containing "
         "the project, added_sys_path, smart_sys_path on/off}; x buffers importing those files by every import form (with a "
         "path inside the project or none); x all Script query and refactoring methods + Project.search. Oracle: the "
         "sentinel directory stays empty (host or helper pid would be named), and the host's sys.path, sys.modules "
@@ -50,6 +52,11 @@ def cases(draw):
         "script_in_project": draw(st.sampled_from(["inside", "inside-tests", "none"])),
         "forms": draw(st.lists(st.sampled_from(["import", "from", "star", "as", "relative", "attr"]), min_size=2, max_size=4, unique=True)),
         "unsafe": False,
+        # a zip archive on the buffer's sys.path whose member is valid Python in a non-UTF-8 encoding (the helper's module
+        # finder fails on it in an unusual way), and a project file named like the Python twin of a C accelerator whose
+        # classes name it as their __module__ (_datetime.date.__module__ == "datetime")
+        "zip": draw(st.booleans()),
+        "twin": draw(st.sampled_from([None, "datetime", "decimal", "sqlite3", "zoneinfo"])),
     }
 
 
@@ -77,6 +84,13 @@ def build_tree(root, sdir, case):
         (root / "bin").mkdir(exist_ok=True)
         (root / "bin" / "runner").write_text("#!/usr/bin/python\nimport sys\nsys.path[0:0] = [%r]\n%s" % (str(root / "eggs"), BODY.format(sdir=str(sdir), tag="bin.runner")))
     (root / "setup.cfg").write_text("[metadata]\nname = x\n")
+    if case.get("zip"):
+        import zipfile
+        with zipfile.ZipFile(root / "vendor.zip", "w") as z:
+            z.writestr("zmod.py", ("# -*- coding: latin-1 -*-\n" + BODY.format(sdir=str(sdir), tag="zip.zmod") + "NAME = 'caf\xe9'\n").encode("latin-1"))
+            z.writestr("zplain.py", BODY.format(sdir=str(sdir), tag="zip.zplain"))
+    if case.get("twin"):
+        (root / (case["twin"] + ".py")).write_text(BODY.format(sdir=str(sdir), tag="twin." + case["twin"]) + "class date:\n    pass\n")
     return files
 
 
@@ -96,6 +110,12 @@ def buffers(case, files):
                 out.append(("from . import %s\n%s.function\nfrom .%s import Klass\nKlass" % (name, name, name), name))
             else:
                 out.append(("import %s\nvalue = %s.Klass()\nvalue.method().upper\ndef test_it(my_fixture, my_f):\n    my_fixture\n" % (name, name), name))
+    if case.get("zip"):
+        out.append(("import sys\nsys.path.insert(0, 'vendor.zip')\nimport zplain\nzplain.function\nimport zmod\nzmod.NAME\nzmod.", "zmod"))
+    if case.get("twin"):
+        acc = {"datetime": ("_datetime", "date", "today"), "decimal": ("_decimal", "Decimal", "sqrt"),
+               "sqlite3": ("_sqlite3", "Connection", "cursor"), "zoneinfo": ("_zoneinfo", "ZoneInfo", "key")}[case["twin"]]
+        out.append(("from %s import %s\n%s.%s\n%s." % (acc[0], acc[1], acc[1], acc[2], acc[1]), case["twin"]))
     return out
 
 
